@@ -166,13 +166,15 @@ def design(thorough):
                         "violated": r.what if r.violation else None}
     if thorough:
         # every action of the design modules must have fired (an action that never fires is a modelling hole)
-        for mod, cfg in (("AggregatorMC", "Aggregator_exh.cfg"), ("AggregatorMC", "Aggregator_exh_fault_block.cfg"),
-                         ("ShutdownMC", "Shutdown_exh_drop.cfg"), ("ShutdownMC", "Shutdown_exh_slow_small.cfg"),
-                         ("PoolAggMC", "PoolAgg_exh_small2.cfg")):
+        # (module, config, actions that cannot fire under that config's constants)
+        for mod, cfg, na in (("AggregatorMC", "Aggregator_exh.cfg", ()), ("AggregatorMC", "Aggregator_exh_fault_block.cfg", ()),
+                             ("ShutdownMC", "Shutdown_exh_drop_slow_small.cfg", ("ReportBlocks", "Unblock")),
+                             ("ShutdownMC", "Shutdown_exh_slow_small.cfg", ()),
+                             ("PoolAggMC", "PoolAgg_exh_small2.cfg", ())):
             r = vlib.tlc(mod, cfg, workers=4, heap="4g", timeout=3000, deadlock=False, coverage=True)
             vlib.tlc_must_pass(r, cfg + " (coverage)")
             acts = re.findall(r"^<(\w+) line \d+, col \d+ to line \d+, col \d+ of module \w+>: (\d+):(\d+)", r.out, re.M)
-            dead = sorted({a for a, dist, gen in acts if int(gen) == 0})
+            dead = sorted({a for a, dist, gen in acts if int(gen) == 0 and a not in na})
             if not acts or dead:
                 raise vlib.MachineryError("%s: actions never taken: %s" % (cfg, dead or "no coverage output"))
             per[cfg + " coverage"] = {a: int(gen) for a, dist, gen in acts}
@@ -284,14 +286,23 @@ def describe_sig(evs, ev, inv, bad):
                     ex.get("failed_returned_before"), ex.get("entered"), ex.get("lines"), ex.get("dropped"),
                     ex.get("last_complete"), ex.get("agg_returned"), ex.get("another_signal"), ex.get("signals"),
                     ex.get("status"), bad))
-    return ("signal sig=%s kind=%s pipe=%s inv=%s bad=%s" % (st.get("sig"), st.get("kind"), st.get("pipe"), inv, bad),
-            "pandora (%s, %s rps, %s instances in %s pool(s), %s sink, GOMAXPROCS=%s) stopped with SIG%s %s ms into the run: %s reports had returned "
-            "before the signal, %s begun at exit; result has %s lines (+%s counted drops), last line complete=%s, "
-            "aggregator returned before exit=%s, exit status %s: %s" % (
+    scen = st.get("scen") or ""
+    how = {"second": "; a second signal followed %s ms later" % st.get("second_ms"),
+           "timeout": "; the sink takes no bytes any more from the signal on",
+           "startup": " (sent %s ms after the process was started, without waiting for a report)" % st.get("after_ms"),
+           "full": "; the result destination is /dev/full",
+           "grpc": "; grpc gun", "mixed": "; one phout and one jsonlines pool",
+           "backpr": "; queue 8, 4 KiB buffer, a pipe slower than the load (back-pressure)"}.get(scen, "")
+    return ("signal%s sig=%s kind=%s pipe=%s inv=%s bad=%s" % (" scen=" + scen if scen else "", st.get("sig"), st.get("kind"), st.get("pipe"), inv, bad),
+            "pandora (%s, %s rps, %s instances in %s pool(s), %s sink, GOMAXPROCS=%s) stopped with SIG%s %s ms into the run%s: %s reports had returned "
+            "before the signal, %s begun at exit; result has %s lines (+%s counted drops, %s malformed), last line complete=%s, "
+            "aggregator returned before exit=%s (its error: %r), exit status %s%s after %s ms, log says timeout=%s another-signal=%s: %s" % (
                 st.get("kind"), st.get("rps"), st.get("inst"), st.get("pools"), "slow pipe" if st.get("pipe") else "file",
                 st.get("gomaxprocs") or "default",
-                st.get("sig"), st.get("after_ms"), sg.get("returned_before"), ex.get("entered"), ex.get("lines"),
-                ex.get("dropped"), ex.get("last_complete"), ex.get("agg_returned"), ex.get("status"), bad))
+                st.get("sig"), st.get("after_ms"), how, sg.get("returned_before"), ex.get("entered"), ex.get("lines"),
+                ex.get("dropped"), ex.get("malformed"), ex.get("last_complete"), ex.get("agg_returned"), ex.get("agg_err"), ex.get("status"),
+                " (killed by the default action of '%s')" % ex.get("killed") if ex.get("killed") else "", ex.get("elapsed_ms"),
+                ex.get("timeout_exit"), ex.get("another_signal"), bad))
 
 
 def sink_runs(v, vdrive, d, n):
@@ -354,7 +365,8 @@ def run(tier, v):
         sig_path = os.path.join(d, "aggsig.ndjson")
         nsig = 500 if thorough else 16
         fs = ex.submit(vlib.run_driver, vdrive, ["aggsig", "-vpandora", vpandora, "-out", sig_path, "-runs", str(nsig),
-                                                  "-par", "6" if thorough else "4", "-fail", "80" if thorough else "4"], 3000)
+                                                  "-par", "6" if thorough else "4", "-fail", "80" if thorough else "4",
+                                                  "-scen", "144" if thorough else "12", "-long", "1" if thorough else "0"], 3000)
         states, trans, per = fd.result()
         fs.result()
     ncases, cstates, ctrans, csamples = format_cases(v, vdrive, d)
@@ -423,7 +435,14 @@ def run(tier, v):
                         "error_path_runs": sum(1 for r in srows if r["ev"] == "Start" and r.get("fail")),
                         "error_path_runs_signalled_while_awaiting_tasks": sum(1 for e in exits if starts[e["run"]].get("fail") and e.get("signals")),
                         "forced": sum(1 for e in exits if e.get("forced")),
-                        "late_reports_lost": sum(e["entered"] - e["lines"] - e["dropped"] for e in exits),
+                        "scenarios": {sc: sum(1 for r in srows if r["ev"] == "Start" and r.get("scen") == sc)
+                                      for sc in ("second", "timeout", "startup", "hup", "quit", "full", "grpc", "mixed", "backpr")},
+                        "exits_by_interrupt_timeout": sum(1 for e in exits if e.get("timeout_exit")),
+                        "exits_by_second_signal": sum(1 for e in exits if e.get("another_signal") and e.get("signals", 0) >= 2),
+                        "killed_by_default_action": sum(1 for e in exits if e.get("killed")),
+                        "full_disk_runs_failed": sum(1 for e in exits if starts[e["run"]].get("scen") == "full" and e["status"] != 0),
+                        "late_reports_lost": sum(e["entered"] - e["lines"] - e["dropped"] for e in exits
+                                                 if not e.get("forced") and starts[e["run"]].get("scen") not in ("full", "quit", "hup")),
                         "reports": sum(e["entered"] for e in exits), "trace_spec_states": sig_states},
         "format_cases": {"cases": ncases, "tlc_states": cstates},
         "result_destinations": sink_cov,
